@@ -133,6 +133,21 @@ access(all) contract C {
         return <- r
     }
 
+    // non-resource holders of references: a reference stored in a field / array / dictionary
+    // and read back through a reference to the holder is a new reference value to the same
+    // resource, and must be invalidated like every other one
+    access(all) struct Holder {
+        access(all) var ref: &{I}
+        access(all) var opt: &{I}?
+        init(_ r: &{I}) {
+            self.ref = r
+            self.opt = r
+        }
+    }
+    access(all) fun viaHolder(_ h: &Holder): &{I} { return h.ref }
+    access(all) fun viaArray(_ a: &[&{I}], _ i: Int): &{I} { return a[i] }
+    access(all) fun viaDict(_ d: &{String: &{I}}, _ k: String): &{I}? { return d[k] }
+
     // identity on references: hides the origin of a reference from the checker's static
     // (variable-rooted) invalidation analysis, so that the run-time check is what decides
     access(all) fun idr(_ r: &{I}?): &{I}? { return r }
